@@ -275,8 +275,54 @@ def conservativity_obligations():
     return obs
 
 
+def env_option_independence():
+    """GUARD: in the block rules that record into env (reference), no statement that touches env is control-dependent on a
+    test that reads `options` - switching inline_definitions / store_labels can only add tokens and labels, never change
+    what is recorded in env (C10).  Control dependence is syntactic: the statement lies in the body or the else-part of an
+    `if` whose test mentions options."""
+    import re
+
+    obs = []
+    for q in ("markdown_it.rules_block.reference.reference",):
+        try:
+            mi, fn, canon = S.resolve_function(q)
+        except S.SourceError as e:
+            obs.append({"oid": f"{q}/GUARD/exists", "verdict": "undecided", "func": q, "info": str(e)})
+            continue
+        parents = {}
+        for n in ast.walk(fn):
+            for ch in ast.iter_child_nodes(n):
+                parents[ch] = n
+        # names bound to something taken from env (e.g. references = state.env.setdefault(...)) count as env as well
+        env_names = set()
+        for n in ast.walk(fn):
+            if isinstance(n, ast.Assign) and len(n.targets) == 1 and isinstance(n.targets[0], ast.Name) and ".env" in ast.unparse(n.value):
+                env_names.add(n.targets[0].id)
+
+        def touches_env(st):
+            t = ast.unparse(st)
+            return ".env" in t or any(re.search(r"\\b" + re.escape(x) + r"\\b", t) for x in env_names)
+
+        bad = []
+        k = 0
+        for st in ast.walk(fn):
+            if not isinstance(st, (ast.Assign, ast.AugAssign, ast.Expr)) or not touches_env(st):
+                continue
+            k += 1
+            p_ = st
+            while p_ in parents:
+                par = parents[p_]
+                if isinstance(par, ast.If) and p_ is not par.test and "options" in ast.unparse(par.test):
+                    bad.append(f"line {st.lineno}: `{ast.unparse(st)[:60]}` depends on `{ast.unparse(par.test)[:50]}`")
+                    break
+                p_ = par
+        obs.append({"oid": f"{canon}/GUARD/env-writes-independent-of-options", "verdict": "failed" if bad else ("discharged" if k else "undecided"), "func": canon,
+                    "info": "; ".join(bad) if bad else f"{k} statements touching env, none control-dependent on an options test"})
+    return obs
+
+
 def add_obligations(rep, prop):
-    obs = obligations() + conservativity_obligations()
+    obs = obligations() + conservativity_obligations() + env_option_independence()
     for o in obs:
         kind = o["oid"].split("/")[-2] if "/" in o["oid"] else "VOCAB"
         rep.obs.append(Ob(oid=f"{prop}/{o['oid']}", kind=kind, func=o["func"], backend="vocab", verdict=o["verdict"], info=o["info"], solver="literal / dominance analysis of the real source"))
